@@ -160,7 +160,8 @@ def _dumpstruct(
         if color:
             foreground, background = colors[ci % len(colors)]
             # Bit fields have no recorded size of their own
-            palette.append((structure._sizes.get(field._name, 0), background))
+            # ... and an instance that was not created by parsing has no recorded sizes at all
+            palette.append((getattr(structure, "_sizes", {}).get(field._name, 0), background))
         ci += 1
 
         value = getattr(structure, field._name)
